@@ -609,6 +609,18 @@ def translate(ctx):
         ctx.unshown("T-proj: %s" % ex)
         return False
     t_proj.write_if_changed(out, text)
+    # translator self-test: every seeded mutation of a scratch copy of the sources must change the table
+    import contextlib
+    import io
+    buf = io.StringIO()
+    try:
+        with contextlib.redirect_stdout(buf):
+            ok = t_proj.self_test(ctx.repo)
+    except Exception as ex:             # a drifted source may break a mutation pattern: report, do not crash
+        ok, _ = False, buf.write("self-test raised %r" % (ex,))
+    if not ok:
+        bad = [l for l in buf.getvalue().splitlines() if "NOT DETECTED" in l or "not present" in l or "raised" in l]
+        ctx.note("T-proj self-test incomplete (source drifted from the seeded mutation patterns?): %s" % bad[:3])
     return True
 
 
